@@ -69,6 +69,15 @@ def check_threading(ctx, fi, init_param: str, allow_fresh: bool):
     ctx.analysed(fi)
     acc = _accumulator(fi, ctx)
     if acc is None:
+        # several exits: the accumulator is the name the producers thread; every exit then has to hand out that name
+        cand = {norm(_state_arg(c)) for c in find_calls_named(fi.node, ["apply", "_get_wavefunction_from_native_circuit"]) if isinstance(_state_arg(c), ast.Name)}
+        if len(cand) == 1:
+            acc = cand.pop()
+            for r in returned_exprs(fi.node):
+                inner = r.args[0] if isinstance(r, ast.Call) and len(r.args) == 1 and not r.keywords else r
+                if not (isinstance(inner, ast.Name) and inner.id == acc):
+                    ctx.violation(R1, fi.key + f":exit:{short(r, 40)}", f"an exit returns {short(r)}, which is not the threaded state '{acc}': on that path the caller's {init_param} (and whatever was applied before) is ignored", f"{fi.module.relpath}:{r.lineno}")
+    if acc is None:
         ctx.undecided(R1, fi.key, "cannot identify the state accumulator from the return statements", fi)
         return
     producers = find_calls_named(fi.node, ["apply", "_get_wavefunction_from_native_circuit"])
@@ -563,6 +572,18 @@ def run(ctx):
     check_width_carried(ctx, R3W, repo.func("circuits._circuit:Circuit.inverse"), ["self.n_qubits", "self._n_qubits"])
     check_embedding_paths(ctx)
     check_lift_structure(ctx)
+    # the permutation matrices of the embedding are assembled from basis vectors / bit strings built by helpers whose bit order
+    # C04-D5 decides (qubit 0 = leftmost factor); the circuit product is only the ordered product if they keep that order
+    from ..common import share_rule
+    from . import c04, c20
+
+    share_rule(ctx, "C04", c04.check_embedding_helpers, "C01-D7 embedding-helpers")
+    ctx.floor("C01-D7", 4)
+    # evaluating a circuit twice on the same initial state gives the same state: no step may overwrite the vector it is given
+    eff = c20.effects_for(ctx)
+    appliers = [f for f in repo.methods_named("apply") if f.module.name.startswith("circuits.")] + [base, sym]
+    c20.mutation_obligations(ctx, "C01-D8 state-not-overwritten", appliers, eff)
+    ctx.floor("C01-D8", 4)
     ctx.floor("C01-D1", 8)
     ctx.floor("C01-D2", 2)
     ctx.floor("C01-D3", 9)
